@@ -269,6 +269,7 @@ func vfC36Types() (execs []string, sinks []string, funcs []string, err error) {
 	if _, e := conf.Check("github.com/sourcegraph/zoekt/web", fset, files, info); e != nil {
 		return nil, nil, nil, e
 	}
+	vfC36TInfo, vfC36TFiles = info, files // for the template-function translator (zz_verif_c36funcs_test.go)
 	seen := map[string]bool{}
 	for _, f := range files {
 		for _, d := range f.Decls {
@@ -394,6 +395,13 @@ func TestVerifC36Gen(t *testing.T) {
 	}
 	vfEmit(map[string]any{"kind": "gen", "file": "WebRoutes.v", "text": rtext})
 	info["routes"] = rinfo
+	// ---- template functions: the FuncMap entries with their signatures, the call sites in the templates
+	ftext, finfo, err := vfC36FuncsGenText()
+	if err != nil {
+		t.Fatalf("funcs translator: %v", err)
+	}
+	vfEmit(map[string]any{"kind": "gen", "file": "WebFuncs.v", "text": ftext})
+	info["funcs"] = finfo
 	info["execs"] = len(execs)
 	info["sinks"] = len(sinks)
 	info["url_slots"] = len(hrefs)
